@@ -233,11 +233,7 @@ def make_score(name):
             "GV": lambda: LocalAnomalyScore(GaussianVarCost()), "Cov": lambda: GaussianCovCost()}[name]()
 
 
-def two_generic_columns(xs):
-    """2-column data in which (almost) every window of 3 rows has a positive definite sample covariance: the series plus
-    a texture, and a second 'generic' column."""
-    n = len(xs)
-    return [[float(xs[t]) + 0.25 * (((t * 7 + 3) % 5) - 2) / 2.0, ((t * t * 3 + t) % 7) / 4.0 + 0.5 * float(xs[n - 1 - t])] for t in range(n)]
+two_generic_columns = util.two_generic_columns
 
 
 def check_data(acc, case, key):
